@@ -84,7 +84,7 @@ def setup_mapping_inputs(sb, W, mcfg, query=None, stats_kw=None, markers=None, q
     W.write_markers(mk, lookup=markers)
     X = W.q_X if query is None else query
     norm = mcfg.get('normalization', 'raw')
-    dtype = 'float64'
+    dtype = mcfg.get('dtype', 'float64')
     world.write_h5ad(qp, X, q_ids or W.q_ids, q_genes or W.q_genes,
                      encoding=mcfg.get('encoding', 'csr'), dtype=dtype)
     return {'stats': stats, 'markers': mk, 'query': qp}
